@@ -95,9 +95,15 @@ where
             // before we can do anything else.
             if buffered_req.is_some() && server.is_some() {
                 let si = &mut server.as_mut().as_pin_mut().unwrap().0;
-                // Unwrapping is safe as the underlying sink is guaranteed not to error
-                ready!(si.poll_ready_unpin(cx)).unwrap();
-                si.start_send_unpin(buffered_req.take().unwrap()).unwrap();
+                let result = match ready!(si.poll_ready_unpin(cx)) {
+                    Ok(()) => si.start_send_unpin(buffered_req.take().unwrap()),
+                    Err(e) => Err(e),
+                };
+                // A replier whose sink has failed is unbound so that another can bind
+                if let Err(e) = result {
+                    error!("Unbinding replier after sink error: {e:?}");
+                    *server = None;
+                }
             }
 
             // If we've got an error buffered already, we need to write it to the client
@@ -198,7 +204,9 @@ where
                     // Server has finished
                     Poll::Ready(None) => {
                         let si = &mut server.as_mut().as_pin_mut().unwrap().0;
-                        ready!(si.poll_flush_unpin(cx)).unwrap();
+                        if let Err(e) = ready!(si.poll_flush_unpin(cx)) {
+                            warn!("Could not flush departing replier sink: {e:?}");
+                        }
                         ready!(sink.as_mut().poll_flush(cx)).unwrap();
                         *server = None;
                     }
@@ -249,7 +257,10 @@ where
 
                     if server.is_some() {
                         let si = &mut server.as_mut().as_pin_mut().unwrap().0;
-                        ready!(si.poll_flush_unpin(cx)).unwrap();
+                        if let Err(e) = ready!(si.poll_flush_unpin(cx)) {
+                            error!("Unbinding replier after sink error: {e:?}");
+                            *server = None;
+                        }
                     }
 
                     // Nothing to wait for on the requestor side until one registers
@@ -263,11 +274,15 @@ where
 
             if server_pending && stream_pending {
                 // Unwrapping is safe as the underlying sink is guaranteed not to error
-                ready!(sink.poll_flush(cx)).unwrap();
+                ready!(sink.as_mut().poll_flush(cx)).unwrap();
 
                 if server.is_some() {
                     let si = &mut server.as_mut().as_pin_mut().unwrap().0;
-                    ready!(si.poll_flush_unpin(cx)).unwrap();
+                    if let Err(e) = ready!(si.poll_flush_unpin(cx)) {
+                        error!("Unbinding replier after sink error: {e:?}");
+                        *server = None;
+                        continue;
+                    }
                 }
 
                 return Poll::Pending;
